@@ -69,6 +69,7 @@ def run_case(task):
         ex = Exec(mod, mode=ob['mode'], overrides=ob.get('py_overrides'), max_steps=ob.get('max_steps', 400000), qtimeout_ms=ob.get('qtimeout_ms', 60000 if tier == 'quick' else 300000))
         ex.keep_models = ob.get('validate', 6)
         ex.domain_checks = ob.get('domain_checks', False)
+        ex.domain_fdiv = ob.get('domain_fdiv', True)
         ex.record_reads = ob.get('record_reads', False)
         if 'slicing' in ob: ex.slicing = ob['slicing']
         if 'libm_axioms' in ob: ex.libm_axioms = ob['libm_axioms']
